@@ -631,7 +631,7 @@ fn cbor_items(b: &[u8]) -> Vec<(usize, usize)> {
 
 /// items of other types and sizes that a damaged or hostile peer may put where a given item is expected
 fn cbor_replacements() -> Vec<Vec<u8>> {
-    let mut v: Vec<Vec<u8>> = vec![vec![0xf5], vec![0xf4], vec![0xf6], vec![0xf7], vec![0x00], vec![0x20], vec![0x18, 0xff], vec![0x3b, 0xff, 0xff, 0xff, 0xff, 0xff, 0xff, 0xff, 0xff], vec![0x40], vec![0x41, 0x00], vec![0x60], vec![0x61, 0x61], vec![0x80], vec![0x81, 0x00], vec![0xa0], vec![0xa1, 0x00, 0x00], vec![0xc0, 0x00], vec![0xfb, 0x7f, 0xf0, 0, 0, 0, 0, 0, 0], vec![0xf9, 0x7e, 0x00]];
+    let mut v: Vec<Vec<u8>> = vec![vec![0xf5], vec![0xf4], vec![0xf6], vec![0xf7], vec![0x00], vec![0x20], vec![0x18, 0xff], vec![0x3b, 0xff, 0xff, 0xff, 0xff, 0xff, 0xff, 0xff, 0xff], vec![0x1b, 0xff, 0xff, 0xff, 0xff, 0xff, 0xff, 0xff, 0xff], vec![0x1b, 0x80, 0, 0, 0, 0, 0, 0, 0], vec![0x3b, 0x80, 0, 0, 0, 0, 0, 0, 0], vec![0x40], vec![0x41, 0x00], vec![0x60], vec![0x61, 0x61], vec![0x80], vec![0x81, 0x00], vec![0xa0], vec![0xa1, 0x00, 0x00], vec![0xc0, 0x00], vec![0xfb, 0x7f, 0xf0, 0, 0, 0, 0, 0, 0], vec![0xf9, 0x7e, 0x00]];
     for n in [31u8, 33, 64] {
         let mut bs = vec![0x58, n];
         bs.extend(std::iter::repeat_n(0x11, usize::from(n)));
@@ -766,6 +766,16 @@ fn sweep_for(decoder: &str, base: &[u8]) -> Vec<Vec<LinkFault>> {
         }
         for l in [0u8, 1, 15, 17, 255] {
             out.push(vec![LinkFault::ByteSet(65, l)]);
+        }
+    }
+    // authenticator data cut at every offset with the flag bits AT / ED forced on or off (the layout that
+    // follows depends on them)
+    if decoder == "bin:AuthenticatorData" && n > 32 {
+        for flags in [base[32] | 0x80, base[32] | 0xC0, base[32] & 0x3f, (base[32] & 0x3f) | 0x80] {
+            for k in 33..n.min(260) {
+                out.push(vec![LinkFault::ByteSet(32, flags), LinkFault::Truncate(k as u32)]);
+            }
+            out.push(vec![LinkFault::ByteSet(32, flags)]);
         }
     }
     // large maps of pairwise different keys (a duplicate check, an ordered insert or a linear lookup per
